@@ -491,6 +491,79 @@ def run_bomb_faults(res, chk, idx, n):
                     res["judged"][k2] = 1
 
 
+def run_retry_same_closure(res, chk, idx, n):
+    """A VJP function whose backward pass failed at the k-th rule is called again: the retry (same
+    closure, same recorded graph) must return what a fault-free call returns. All k, several graphs."""
+    import autograd.numpy as anp
+    from autograd.core import make_vjp
+    from autograd.extend import defvjp, primitive
+
+    state = {"n": 0, "at": None}
+
+    def mk(scale):
+        def maker(ans, x):
+            def vjp(g):
+                state["n"] += 1
+                if state["n"] == state["at"]:
+                    raise Fault("rule application %d" % state["n"])
+                return g * scale
+
+            return vjp
+
+        return maker
+
+    b1 = primitive(lambda x: x * 1.1)
+    defvjp(b1, mk(1.1))
+    b2 = primitive(lambda x: x * 0.7 + 0.2)
+    defvjp(b2, mk(0.7))
+    x3 = onp.array([0.3, -1.2, 0.8])
+    progs = {
+        "fan_out": lambda x: anp.sum(b1(x) * b2(x) + b1(b2(x))),
+        "diamond": lambda x: (lambda a: anp.sum(b1(a) * anp.sin(a) + b2(a) * a))(b2(x) * x),
+        "sparse_mix": lambda x: anp.sum(b1(x)[onp.array([0, 0, 2])]) + anp.sum(b2(x) ** 2) + anp.sum(b1(x[1:]) * x[:-1]),
+        "vector_out": lambda x: anp.concatenate([b1(x) * x, b2(b1(x))]),
+        "chain": lambda x: b1(b2(b1(b2(x)))) * x,
+    }
+    for j, (pname, f) in enumerate(progs.items()):
+        if j % n != idx % n:
+            continue
+        with warnings.catch_warnings():
+            warnings.simplefilter("ignore")
+            vjp, val = make_vjp(f, x3)
+            g = onp.ones(onp.shape(val)) * 0.5 if onp.shape(val) else 1.0
+            state.update(n=0, at=None)
+            ref = common.enc(onp.asarray(vjp(g)))
+            total = state["n"]
+            for k in range(1, total + 1):
+                res["evaluations"] += 1
+                sig = {"engine": "history", "fault": "rule_application_retry_same_closure", "prog": pname}
+                case = {"kind": "retry", "prog": pname, "k": k}
+                state.update(n=0, at=k)
+                try:
+                    vjp(g)
+                    outcome = "returned"
+                except Fault:
+                    outcome = "escaped"
+                state.update(n=0, at=None)
+                res["counters"]["faults_injected"] = res["counters"].get("faults_injected", 0) + 1
+                try:
+                    r = common.enc(onp.asarray(vjp(g)))
+                except Exception as e:
+                    s = dict(sig, symptom="history_dependence")
+                    res["violations"].append({"sig": s, "case": case, "detail": "retry of the same VJP function after a failure at rule %d raised %s: %s" % (k, type(e).__name__, str(e)[:150])})
+                    continue
+                if r != ref:
+                    s = dict(sig, symptom="history_dependence")
+                    res["violations"].append({"sig": s, "case": case, "detail": "retry of the same VJP function after a failure at rule %d returned %s, fault-free %s" % (k, common.brief(common.dec(r)), common.brief(common.dec(ref)))})
+                    continue
+                fresh = common.enc(onp.asarray(make_vjp(f, x3)[0](g)))
+                if fresh != ref:
+                    s = dict(sig, symptom="history_dependence", where="fresh")
+                    res["violations"].append({"sig": s, "case": case, "detail": "fresh make_vjp after the failure differs"})
+                    continue
+                res["judged"][sig_key(dict(sig, k=k))] = 1
+
+
 def registry_snapshot():
     import autograd.core as core
     import autograd.tracer as tracer
@@ -715,6 +788,7 @@ def run_shard(pid, tier, seed, idx, n):
     try:
         run_histories(res, chk, seed, idx, n, tier)
         run_bomb_faults(res, chk, idx, n)
+        run_retry_same_closure(res, chk, idx, n)
         run_line_faults(res, chk, idx, n, tier)
     except Exception:
         res["not_judged"]["harness_error"] = res["not_judged"].get("harness_error", 0) + 1
@@ -756,6 +830,9 @@ def replay(pid, case):
     elif k == "bomb":
         run_bomb_faults(res, chk, 0, 1)
         res["violations"] = [v for v in res["violations"] if v["case"].get("prog") == case["prog"] and v["case"].get("mode") == case["mode"]][:1]
+    elif k == "retry":
+        run_retry_same_closure(res, chk, 0, 1)
+        res["violations"] = [v for v in res["violations"] if v["case"].get("prog") == case["prog"]][:1]
     elif k == "history":
         run_histories(res, chk, case["seed"][0], case["seed"][1], 10**9, "quick")
     else:
